@@ -255,7 +255,10 @@ def execute(case, ctx):
                             for h, (x, y, z, vx, vy, vz) in after.items():
                                 if y != y and collision == "tree":
                                     continue        # a merge in the collision search flags its victim; that removal is deferred to the next tree update by design
-                                if not (abs(x) <= L[0] / 2 and abs(y) <= L[1] / 2 and abs(z) <= L[2] / 2):
+                                # (a merger resolved after the boundary check of this step puts the survivor at the centre of mass of two particles; for two
+                                #  particles on a face that quotient can round one ulp outside: left to the next step's boundary check, not a lost particle)
+                                tol = 1 + (4e-15 if collision != "none" else 0.0)
+                                if not (abs(x) <= L[0] / 2 * tol and abs(y) <= L[1] / 2 * tol and abs(z) <= L[2] / 2 * tol):
                                     viol("boundary", "a particle outside the box (or flagged for removal) is still present after the step", "hash %d at (%r,%r,%r), box %s, N=%d" % (h, x, y, z, L, len(after)), key="boundary:open-left-behind")
                                     break
                         if boundary == "open" and exact and not viols:
